@@ -107,6 +107,8 @@ func getWalkRT() (*walkRT, error) {
 // ---- export of a Go AST into the generic tree ------------------------------------------------------
 
 type xnode struct {
+	rank     []int   // position in the order in which walk.go's arms visit (used only to tell apart
+	                 // several occurrences of ONE Go object, e.g. the shared *Var of `a = a`)
 	path     []int64 // flattened (field, index) pairs
 	ty       int
 	ptr      unsafe.Pointer
@@ -197,6 +199,29 @@ func (rt *walkRT) fieldKids(x *xtree, ti int, sv reflect.Value, fi int) []reflec
 	}
 }
 
+// visitRank: position of field fi in the visits of type ti's arm (fields never visited come last)
+func (rt *walkRT) visitRank(ti, fi int) int {
+	k := 0
+	for _, v := range rt.ws.Types[ti].Visits {
+		for _, f := range v.Fields {
+			if f == fi {
+				return k
+			}
+			k++
+		}
+	}
+	return k + fi
+}
+
+func rankLess(a, b []int) bool {
+	for i := 0; i < len(a) && i < len(b); i++ {
+		if a[i] != b[i] {
+			return a[i] < b[i]
+		}
+	}
+	return len(a) < len(b)
+}
+
 func (rt *walkRT) export(root interface{}) *xtree {
 	x := &xtree{byKey: map[xkey][]*xnode{}}
 	rv := reflect.ValueOf(root)
@@ -205,15 +230,18 @@ func (rt *walkRT) export(root interface{}) *xtree {
 		x.anomalies = append(x.anomalies, "unknown-root:"+rv.Type().String())
 		return x
 	}
-	x.root = rt.exportNode(x, rv.Elem(), ti, nil, nil, false)
+	x.root = rt.exportNode(x, rv.Elem(), ti, nil, nil, false, nil)
+	for _, n := range x.nodes {
+		sort.SliceStable(n.children, func(i, j int) bool { return rankLess(n.children[i].rank, n.children[j].rank) })
+	}
 	return x
 }
 
 func (rt *walkRT) ntypes() int { return len(rt.ws.Types) }
 
-func (rt *walkRT) exportNode(x *xtree, sv reflect.Value, ti int, path []int64, parent *xnode, byValue bool) *xnode {
+func (rt *walkRT) exportNode(x *xtree, sv reflect.Value, ti int, path []int64, parent *xnode, byValue bool, rank []int) *xnode {
 	t := rt.ws.Types[ti]
-	n := &xnode{path: path, ty: ti, val: sv, wrapper: t.Wrapper, parent: parent}
+	n := &xnode{path: path, ty: ti, val: sv, wrapper: t.Wrapper, parent: parent, rank: rank}
 	if byValue {
 		n.ty = rt.ntypes() + ti
 	}
@@ -240,7 +268,13 @@ func (rt *walkRT) exportNode(x *xtree, sv reflect.Value, ti int, path []int64, p
 			ci := rt.byType[k.Type()]
 			cp := append(append([]int64{}, path...), int64(fi), int64(i))
 			fk := t.Fields[fi].Kind
-			rt.exportNode(x, k, ci, cp, np, (fk == wkOptI || fk == wkListI) && !k.CanAddr())
+			var cr []int
+			if t.Wrapper {
+				cr = append(append(cr, rank...), rt.visitRank(ti, fi), i)
+			} else {
+				cr = []int{rt.visitRank(ti, fi), i}
+			}
+			rt.exportNode(x, k, ci, cp, np, (fk == wkOptI || fk == wkListI) && !k.CanAddr(), cr)
 		}
 	}
 	return n
@@ -523,11 +557,13 @@ func (r *walkRec) resolve(n js.INode, exit bool) recFrame {
 		}
 		if xns := r.x.byKey[xkey{ti, unsafe.Pointer(rv.Pointer())}]; len(xns) > 0 {
 			xn := xns[0]
+			found := false
 			for _, c := range xns {
-				// zero-size nodes share their address: the next one of the innermost open node
-				if !c.entered && c.parent == top {
+				// zero-size nodes share their address, and one *Var may occur several times: take the
+				// occurrence below the innermost open node that walk.go's arm visits next
+				if !c.entered && c.parent == top && (!found || rankLess(c.rank, xn.rank)) {
 					xn = c
-					break
+					found = true
 				}
 			}
 			return recFrame{n: xn, path: xn.path, ty: ti, fl: flOrig}
